@@ -31,6 +31,7 @@ import (
 	"github.com/dominant-strategies/go-quai/core/types"
 	"github.com/dominant-strategies/go-quai/core/vm"
 	"github.com/dominant-strategies/go-quai/crypto"
+	"github.com/dominant-strategies/go-quai/ethdb"
 	"github.com/dominant-strategies/go-quai/params"
 	"github.com/dominant-strategies/go-quai/verifshim/vx"
 )
@@ -310,6 +311,9 @@ type c02Case struct {
 	// special part
 	Value string `json:"value,omitempty"`
 	Arg   string `json:"arg,omitempty"`
+	// part "block": a second transaction applied to the same state after Finalize, as the next
+	// transaction of the block would be: pay(A) | pay(B) | pay(N) = S transfers 7 wei to that address
+	Then string `json:"then,omitempty"`
 }
 
 func (k c02Case) String() string {
@@ -761,6 +765,15 @@ func (r *c02Runner) run(k c02Case) (*c02Result, error) {
 		out.Verdict, out.Detail = "destroyed", explain(fmt.Sprintf("%s wei are missing after the transaction (equation not met)", new(big.Int).Neg(out.Surplus)))
 		return out, nil
 	}
+	// (f) part "block": the next transaction of the same block on the same state
+	if k.Then != "" {
+		if v, d := r.follow(env, w, st, batch, k, price); v != "" {
+			out.Verdict, out.Detail = v, d
+		} else {
+			out.Outcome += "/then-" + d
+		}
+		return out, nil
+	}
 	// (e) cross-check of the dump itself: the committed account trie (real Finalize + trie iteration) holds the
 	// same total, except for what self-destructed accounts still held
 	if r.trie > 0 && r.n%int64(r.trie) == 0 {
@@ -787,6 +800,59 @@ func (r *c02Runner) run(k c02Case) (*c02Result, error) {
 		out.TrieCheck = "ok"
 	}
 	return out, nil
+}
+
+// follow applies a plain transfer as the next transaction of the block (after the real Finalize of
+// the first one) and checks its own conservation equation: it may only move value and pay its fee.
+func (r *c02Runner) follow(env *c02Env, w *c02World, st *state.StateDB, batch ethdb.Batch, k c02Case, price *big.Int) (verdict, detail string) {
+	target, ok := map[string]common.Address{"pay(A)": c02A, "pay(B)": c02B, "pay(N)": c02N}[k.Then]
+	if !ok {
+		return "harness", "unknown follow-up " + k.Then
+	}
+	if perr := vx.Guard(func() { st.Finalize(true) }); perr != "" {
+		return "panic", "Finalize between the transactions panicked: " + perr
+	}
+	if st.GetCodeSize(c02Int(target)) != 0 {
+		return "", "skipped:target-still-has-code" // the transfer must stay a pure transfer: no code may run
+	}
+	before := c02DumpBalances(w, st)
+	msg := types.NewMessage(c02S, &target, st.GetNonce(c02Int(c02S)), big.NewInt(7), 100000, new(big.Int).Set(price), nil, types.AccessList{{Address: target}}, false)
+	evm := vm.NewEVM(env.BlockCtx, vm.TxContext{}, st, env.Cfg, vm.Config{}, batch)
+	evm.Reset(core.NewEVMTxContext(msg), st)
+	gp := new(types.GasPool).AddGas(c02BlockGasLimit)
+	var res *core.ExecutionResult
+	var aerr error
+	if perr := vx.Guard(func() { res, aerr = core.ApplyMessage(evm, msg, gp) }); perr != "" {
+		return "panic", "the following transfer panicked: " + perr
+	}
+	after := c02DumpBalances(w, st)
+	charge := new(big.Int).Mul(new(big.Int).SetUint64(c02BlockGasLimit-gp.Gas()), price)
+	want := new(big.Int).Sub(before.Sum(), charge)
+	surplus := new(big.Int).Sub(after.Sum(), want)
+	class := "ok"
+	if aerr != nil {
+		class = "rejected:" + c02ErrClass(aerr)
+	} else if res.Failed() {
+		class = "failed:" + c02ErrClass(res.Err)
+	}
+	if surplus.Sign() == 0 {
+		return "", class
+	}
+	var sb strings.Builder
+	for _, ia := range after.Keys() {
+		b := before[ia]
+		if b == nil {
+			b = new(big.Int)
+		}
+		if b.Cmp(after[ia]) != 0 {
+			fmt.Fprintf(&sb, "   %s: %s -> %s\n", c02IntName(ia), b, after[ia])
+		}
+	}
+	what := "created"
+	if surplus.Sign() < 0 {
+		what = "destroyed"
+	}
+	return what + "-by-following-transfer", fmt.Sprintf("after %s (applied, then Finalize), the next transaction of the block - S pays 7 wei to %s - %s %s wei: sum before=%s after=%s fee=%s result=%s\n balance changes of the transfer:\n%s", k.String(), c02Name(target), what, new(big.Int).Abs(surplus), before.Sum(), after.Sum(), charge, class, sb.String())
 }
 
 // ---- violation keys: deterministic minimisation of the failing program --------------------------
@@ -1167,6 +1233,78 @@ func runC02(c *vx.Ctx) {
 			}
 		}
 		p.MaxDepth = 1
+	}
+	if c.Wants("block") {
+		p := c.Part("block")
+		progs := c02Programs(depth)
+		thens := []string{"pay(A)", "pay(B)", "pay(N)"}
+		p.Bound("first_transaction", "every program of <= max_fragments fragments containing a self-destruct or creation fragment x every B code, message call1, gas high, last regime")
+		p.Bound("following_transaction", thens)
+		p.Bound("max_fragments", depth)
+		seen := map[string]bool{}
+	blk:
+		for pi, prog := range progs {
+			relevant := false
+			for _, f := range prog {
+				if strings.HasPrefix(f, "sd(") || strings.HasPrefix(f, "create") || strings.HasPrefix(f, "selfdestruct") {
+					relevant = true
+				}
+			}
+			if !relevant && !c02UsesB(prog) {
+				continue
+			}
+			if !c.Mine(int64(pi)) {
+				continue
+			}
+			bs := c02BMenu
+			if !c02UsesB(prog) {
+				bs = bs[:1]
+			}
+			for _, b := range bs {
+				for _, th := range thens {
+					if c.Expired() {
+						p.Incomplete(fmt.Sprintf("deadline at program %d of %d", pi, len(progs)))
+						break blk
+					}
+					k := c02Case{Part: "programs", Regime: lastRegime, Prog: prog, B: b, Msg: "call1", Gas: "high", Then: th}
+					res, err := r.run(k)
+					if err != nil {
+						c.HarnessError("run: " + err.Error() + " " + k.String())
+						break blk
+					}
+					p.Transitions += 2
+					p.Traces++
+					oc := res.Outcome
+					if res.Verdict != "" {
+						oc += "/VIOLATION:" + res.Verdict
+					}
+					p.Outcome(oc)
+					if !strings.HasSuffix(res.Verdict, "-by-following-transfer") && res.Verdict != "panic" {
+						continue // the first transaction's own verdicts are the programs part's business
+					}
+					key := "block:" + res.Verdict + ":" + th + ":after:" + strings.Join(c02Kinds(prog), "+")
+					if seen[key] {
+						continue
+					}
+					seen[key] = true
+					if c.Confirm(res.Detail, func() string {
+						x, err := r.run(k)
+						if err != nil {
+							return "harness"
+						}
+						return x.Verdict
+					}) {
+						c.Violate("block", key, res.Detail, map[string]any{"verdict": res.Verdict, "case": k})
+					}
+				}
+			}
+			if int64(len(prog)) > p.MaxDepth {
+				p.MaxDepth = int64(len(prog))
+			}
+		}
+		if c.Shard == 0 {
+			p.States = int64(len(progs))
+		}
 	}
 	if c.Wants("programs") {
 		p := c.Part("programs")
